@@ -504,12 +504,12 @@ Proof.
   - rewrite (hier_pass_flat g _ FH). split; [apply flush_all; assumption|]. split; [apply flush_Inv3; assumption|].
     split; [apply flush_Inv4; assumption|].
     unfold Inv4c. rewrite flush_committed by exact Hv. exact I4c.
-  - split; [apply (step_all g s Commit CC FH IA)|]. split; [|split; exact I4].
+  - split; [apply (step_all g s Commit CC (flat_hier_consistent g FH) IA)|]. split; [|split; exact I4].
     unfold Inv3; simpl. repeat split; try constructor; try contradiction; auto. intros o [].
-  - split; [apply (step_all g s Rollback CC FH IA)|]. split; [|split; exact I4c].
+  - split; [apply (step_all g s Rollback CC (flat_hier_consistent g FH) IA)|]. split; [|split; exact I4c].
     unfold Inv3; simpl. repeat split; try constructor; try contradiction; auto. intros o [].
   - contradiction.
-  - split; [apply (step_all g s (RawAssoc a) CC FH IA)|]. rewrite Hv. simpl.
+  - split; [apply (step_all g s (RawAssoc a) CC (flat_hier_consistent g FH) IA)|]. rewrite Hv. simpl.
     destruct (u_live (s_uow s)); (split; [exact I3|]; split; [exact I4 | exact I4c]).
 Qed.
 
